@@ -129,6 +129,14 @@ def post_target(ctx, rec, with_grad=True):
     return post, {"logd": p_logd, "grad": p_grad, "ref_logd": ref_logd, "ref_grad": ref_grad}
 
 
+def _map_exp03(v):
+    return np.exp(0.3 * v)
+
+
+def _imap_exp03(f):
+    return np.log(f) / 0.3
+
+
 def _geom_post(rec):
     """Posterior whose unknown lives on a geometry with a non-trivial parameter-to-function map.
     post_step  : StepExpansion (dim parameters -> 3*dim function values), linear model acting on function values
@@ -168,7 +176,7 @@ def _geom_post(rec):
         p2f = lambda v: np.repeat(np.asarray(v, float).reshape(-1), 3)
     else:
         A = rs.randn(m, n)
-        g = MappedGeometry(Continuous1D(n), map=lambda v: np.exp(0.3 * v), imap=lambda f: np.log(f) / 0.3)
+        g = MappedGeometry(Continuous1D(n), map=_map_exp03, imap=_imap_exp03)     # (module-level functions: two builds are equal)
         x = Gaussian(np.zeros(n), cov, geometry=g, name="x")
         M = Model(lambda x: A @ x, range_geometry=m, domain_geometry=g)
         p2f = lambda v: np.exp(0.3 * np.asarray(v, float).reshape(-1))
@@ -450,11 +458,16 @@ def build_exp_sampler(ctx, sc, callback=None, target=None):
         k["initial_point"] = np.array(k["initial_point"], float)
         if k.pop("ip_int", False):
             k["initial_point"] = np.round(3 * k["initial_point"]).astype(int)      # an integer-typed start vector
+        if k.pop("ip_funvals", False):
+            # the start vector is handed over as a CUQIarray of FUNCTION VALUES (what the test problems' exactSolution is)
+            from cuqi.array import CUQIarray
+            k["initial_point"] = CUQIarray(k["initial_point"], geometry=target.geometry).funvals
         if k.pop("ip_cuqiarray", False):
             from cuqi.array import CUQIarray
             k["initial_point"] = CUQIarray(k["initial_point"], geometry=target.geometry)
     k.pop("ip_cuqiarray", None)
     k.pop("ip_int", None)
+    k.pop("ip_funvals", None)
     if isinstance(k.get("scale"), list):
         k["scale"] = np.array(k["scale"], float)
     prop = k.pop("proposal", None)
